@@ -517,6 +517,138 @@ def _rooted_in_param(v, p):
     return rooted and wrote
 
 
+_ALL_REFERENCED = None
+
+
+def _all_referenced():
+    """qualified names of every function that has a reference (what the confirmed tree consists of)"""
+    global _ALL_REFERENCED
+    if _ALL_REFERENCED is None:
+        out = set()
+        for p in SPEC_DIR.glob("*.py"):
+            mod = p.name[:-3]
+            for n in ast.walk(ast.parse(p.read_text())):
+                pass
+            tree = ast.parse(p.read_text())
+            for n in tree.body:
+                if isinstance(n, ast.FunctionDef):
+                    out.add(f"{mod}.{n.name}")
+                elif isinstance(n, ast.ClassDef):
+                    out |= {f"{mod}.{n.name}.{m.name}" for m in n.body if isinstance(m, ast.FunctionDef)}
+        inv = SPEC_DIR / "_inventory.txt"      # every function of the confirmed tree, with or without a reference
+        if inv.exists():
+            out |= {l.strip() for l in inv.read_text().split('\n') if l.strip()}
+        _ALL_REFERENCED = out
+    return _ALL_REFERENCED
+
+
+def _straight_line(fn):
+    body = [st for st in fn.body if not (isinstance(st, ast.Expr) and isinstance(st.value, ast.Constant))]
+    if not body or not isinstance(body[-1], ast.Return) or body[-1].value is None:
+        return None
+    for st in body[:-1]:
+        if not isinstance(st, (ast.Assign, ast.AugAssign, ast.Expr)):
+            return None
+    if any(isinstance(n, (ast.Return, ast.Yield, ast.Lambda, ast.FunctionDef)) for st in body[:-1] for n in ast.walk(st)):
+        return None
+    return body
+
+
+def inline_new_helpers(prog, f: Func):
+    """A copy of f's definition in which calls of *new* straight-line helper functions (functions of the package that the confirmed
+    tree does not have) are replaced by their bodies.  Extracting a few statements into a helper is the most common refactoring; the
+    comparison with the reference is repeated on this copy before a difference is reported.  Only calls that form the whole right-hand
+    side of an assignment, a whole expression statement or a whole return value are inlined."""
+    import copy
+    known = _all_referenced()
+    counter = [0]
+    changed = [False]
+
+    def expand(st):
+        call = None
+        if isinstance(st, (ast.Assign, ast.Return, ast.Expr)) and isinstance(getattr(st, 'value', None), ast.Call):
+            call = st.value
+        if call is None:
+            return [st]
+        q = prog.resolve_call(f, call)
+        callee = prog.funcs.get(q)
+        if callee is None or q in known or callee is f or any(isinstance(a, ast.Starred) for a in call.args) or any(k.arg is None for k in call.keywords):
+            return [st]
+        body = _straight_line(callee.node)
+        if body is None:
+            return [st]
+        counter[0] += 1
+        suf = f"__inl{counter[0]}"
+        a = callee.node.args
+        params = [x.arg for x in a.posonlyargs + a.args + a.kwonlyargs]
+        pos = a.posonlyargs + a.args
+        defaults = dict(zip([x.arg for x in pos][len(pos) - len(a.defaults):], a.defaults))
+        defaults.update({x.arg: d for x, d in zip(a.kwonlyargs, a.kw_defaults) if d is not None})
+        bound = dict(zip(params, call.args))
+        bound.update({k.arg: k.value for k in call.keywords})
+        if any(p_ not in bound and p_ not in defaults for p_ in params):
+            return [st]
+        locals_ = set(params)
+        for b in body:
+            for n in ast.walk(b):
+                if isinstance(n, ast.Name) and isinstance(n.ctx, ast.Store):
+                    locals_.add(n.id)
+
+        # a parameter bound to a plain name *is* that variable (same array): substitute the name; other arguments get a temporary
+        direct = {p_: bound[p_].id for p_ in params if isinstance(bound.get(p_), ast.Name)
+                  and not any(isinstance(n, ast.Name) and isinstance(n.ctx, ast.Store) and n.id == p_ for b in body for n in ast.walk(b))}
+
+        class Ren(ast.NodeTransformer):
+            def visit_Name(self, n):
+                if n.id in direct:
+                    return ast.copy_location(ast.Name(id=direct[n.id], ctx=n.ctx), n)
+                if n.id in locals_:
+                    return ast.copy_location(ast.Name(id=n.id + suf, ctx=n.ctx), n)
+                return n
+        out = []
+        for p_ in params:
+            if p_ in direct:
+                continue
+            out.append(ast.Assign(targets=[ast.Name(id=p_ + suf, ctx=ast.Store())], value=copy.deepcopy(bound.get(p_, defaults.get(p_))), lineno=st.lineno))
+        for b in body[:-1]:
+            out.append(Ren().visit(copy.deepcopy(b)))
+        ret = Ren().visit(copy.deepcopy(body[-1].value))
+        tgt = st.targets[0] if isinstance(st, ast.Assign) and len(st.targets) == 1 else None
+        if isinstance(tgt, ast.Tuple) and isinstance(ret, ast.Tuple) and len(tgt.elts) == len(ret.elts) \
+                and all(isinstance(e, ast.Name) for e in tgt.elts):
+            # a, b = helper(..) with `return x, y`: one assignment per component (through temporaries: simultaneous assignment)
+            tmps = []
+            for k, e in enumerate(ret.elts):
+                tmps.append(f"ret{k}{suf}")
+                out.append(ast.Assign(targets=[ast.Name(id=tmps[-1], ctx=ast.Store())], value=e, lineno=st.lineno))
+            for e, tmp in zip(tgt.elts, tmps):
+                out.append(ast.Assign(targets=[ast.Name(id=e.id, ctx=ast.Store())], value=ast.Name(id=tmp, ctx=ast.Load()), lineno=st.lineno))
+        else:
+            new = copy.copy(st)
+            new.value = ret
+            out.append(new)
+        for o in out:
+            ast.copy_location(o, st)
+            ast.fix_missing_locations(o)
+        changed[0] = True
+        return out
+
+    def walk_block(stmts):
+        res = []
+        for st in stmts:
+            for fld in ('body', 'orelse', 'finalbody'):
+                if isinstance(getattr(st, fld, None), list) and not isinstance(st, (ast.FunctionDef, ast.ClassDef)):
+                    setattr(st, fld, walk_block(getattr(st, fld)))
+            if isinstance(st, ast.Try):
+                for h in st.handlers:
+                    h.body = walk_block(h.body)
+            res.extend(expand(st))
+        return res
+    node = copy.deepcopy(f.node)
+    node.body = walk_block(node.body)
+    return Func(f.qname, f.module, node, f.cls, f.jit) if changed[0] else None
+
+
 def compare(ctx, target_q, spec_node, rule, what):
     """one obligation: helper `target_q` agrees with its reference"""
     tf = ctx.func(target_q)
@@ -536,6 +668,12 @@ def compare(ctx, target_q, spec_node, rule, what):
     if got.keys() == want.keys() or got.keys(arith=True) == want.keys(arith=True):
         ctx.ok(rule, construct, what)
         return True
+    inl = inline_new_helpers(ctx.prog, tf)
+    if inl is not None:
+        got2 = Summary(ctx.prog, ctx.eff, inl)
+        if got2.keys() == want.keys() or got2.keys(arith=True) == want.keys(arith=True):
+            ctx.ok(rule, construct, what + " (after inlining helper functions that the confirmed tree does not have)")
+            return True
     gk, wk = got.keys(arith=True), want.keys(arith=True)
     extra = [e for e in got.entries if (e[0], e[1], digest(_arith(e[2]))) not in wk]
     missing = [e for e in want.entries if (e[0], e[1], digest(_arith(e[2]))) not in gk]
